@@ -258,6 +258,7 @@ class Ctx:
         self.allow_mut = 0
         self.guards = []
         self.clock = None
+        self.poll_bound = None
         self.clock_strict = False   # the next monotonic_ns() reading is strictly later (set by the variant rule)
         self.policy = None      # callable(FuncInfo, args) -> decision
         self.loop_specs = {}
